@@ -95,6 +95,13 @@ def gen_instance(rng, allow_ext=True):
             if kind in ('conelp', 'lp', 'socp', 'sdp') and rng.random() < 0.12:
                 inst = gen.make_infeasible(inst)
     inst.pop('planted', None)
+    if kind in ('cpl', 'cp') and allow_ext and rng.random() < 0.2:
+        inner = gen_instance(rng, allow_ext=False)
+        while inner['kind'] in ('cpl', 'cp'):
+            inner = gen_instance(rng, allow_ext=False)
+        iopts = gen_opts(rng, 1.0)
+        iopts['show_progress'] = False      # what the inner solve prints would be attributed to the outer call
+        inst['nested'] = {'inst': inner, 'at': sorted(rng.sample(range(2, 14), rng.randint(1, 3))), 'opts': iopts}
     inst['solver'] = solver
     # KKT path
     if solver is None and kind not in ('gp', 'op'):
@@ -128,6 +135,15 @@ def prepare(inst, m):
         F.keep_trace = False
         m['F'] = F
         m['F.x0'] = F.x0m
+        nested = inst.get('nested')
+        if nested:
+            # re-entrancy: the user's F itself solves another (independent) problem at given call ordinals
+            inner, at, iopts = nested['inst'], set(nested['at']), nested['opts']
+
+            def hook(k, _inner=inner, _at=at, _o=iopts):
+                if k in _at:
+                    do_call(_inner, materialise(_inner), dict(_o))
+            F.hook = hook
     return m
 
 
@@ -643,6 +659,8 @@ def run_case(case, refs=None):
             if op[0] == 'solve':
                 inst = insts[op[1]]
                 bump('entry.' + inst['kind'] + ('_' + inst['solver'] if inst.get('solver') else ''))
+                if inst.get('nested'):
+                    bump('fault.reentrant_solves_from_F_callback')
     digest = core.sha((json.dumps(case['clients'], sort_keys=True), [core.sha(i) for i in insts], switch_sig, sorted(sch.sites.items())))
     return {'violation': violation, 'digest': log.digest(), 'stats': stats, 'schedule': sch.schedule,
             'nontrivial': nontrivial, 'distinct': digest, 'sites': len(sch.sites), 'nsolves': nsolves}
